@@ -645,6 +645,34 @@ func c09Rebuild(c *h.Ctx) {
 			c.Feature("rebuild:mixed-ready-state")
 		}
 	}
+	// a snapshot taken after the gate has fired (everybody ready): the rebuilt gate is that finished gate, it does not
+	// fire again by itself
+	for k := 0; k < 4 && !c.Failed(); k++ {
+		g := newGate(0)
+		ids := idsN(1+r.Intn(5), "f")
+		g.m.Setup(90+k, partsMap(ids))
+		for _, id := range ids {
+			atomic.AddInt64(&g.issued, 1)
+			g.m.Ready(id)
+		}
+		if !g.waitFires(1, 5*time.Second) {
+			c.Violate("C09/never-fired", "set-up complete but no callback within 5 s", nil)
+			return
+		}
+		raw, _ := json.Marshal(g.m.GetState())
+		var saved ogm.OpenGameState
+		json.Unmarshal(raw, &saved)
+		g2 := &gateRig{}
+		atomic.StoreInt64(&g2.issued, int64(len(ids)))
+		g2.m = ogm.NewOpenGameManagerFromState(saved, ogm.OpenGameOption{Timeout: 0, OnOpenGameReady: g2.onReady})
+		time.Sleep(30 * time.Millisecond)
+		if g2.nfires() != 0 {
+			c.Violate("C09/fired-more-than-once/rebuilt-from-a-finished-gate", fmt.Sprintf("a gate rebuilt from the snapshot of a gate that had already fired (game count %d) ran the callback again", 90+k), map[string]interface{}{"saved_state": json.RawMessage(raw)})
+			return
+		}
+		gens++
+		c.Feature("rebuild:from-finished-gate")
+	}
 	// the rebuilt gate runs on the options it was rebuilt with, also for every later set-up: the snapshot came from a
 	// gate with another timeout (none / 3 s), the rebuilt one is configured with 1 s
 	{
@@ -767,7 +795,7 @@ func init() {
 			return map[string]int{"quick": 60, "thorough": 1000}[tier]
 		},
 		RequiredFeatures: func(string) []string {
-			return []string{"orders:exhaustive<=4", "orders:random-5..10", "timeout-path", "supersede-unfinished", "supersede-unfinished-with-timeout", "rebuild-from-saved-state", "rebuild:mixed-ready-state", "concurrent-signals", "re-set-up-right-after-completion", "same-set-up-announced-again", "rebuild:later-set-up-uses-configured-timeout"}
+			return []string{"orders:exhaustive<=4", "orders:random-5..10", "timeout-path", "supersede-unfinished", "supersede-unfinished-with-timeout", "rebuild-from-saved-state", "rebuild:mixed-ready-state", "concurrent-signals", "re-set-up-right-after-completion", "same-set-up-announced-again", "rebuild:later-set-up-uses-configured-timeout", "rebuild:from-finished-gate"}
 		},
 		CaseTimeout: 200e9,
 		InProc:      3,
